@@ -327,20 +327,27 @@ func (c *Client) Backup(ctx context.Context, br *command.BackupRequest, nodeAddr
 		return errors.New(a.Error)
 	}
 
-	// The backup stream is unconditionally compressed, so depending on whether
-	// the user requested compression, we may need to decompress the response.
-	var rc io.ReadCloser
-	rc = conn
-	if !br.Compress {
-		gzr, err := gzip.NewReader(conn)
-		if err != nil {
-			return err
-		}
-		gzr.Multistream(false)
-		rc = gzr
-		defer rc.Close()
+	// The backup stream is unconditionally compressed. It is always decoded to
+	// its end, whether or not the user requested compression: the end of the gzip
+	// stream is the only marker of the end of the backup, so a stream which ends
+	// early (remote node failed or went away mid-backup) or is corrupt must be
+	// reported as an error, and never be returned as a successful backup.
+	var src io.Reader = conn
+	dst := w
+	if br.Compress {
+		// The user wants the compressed bytes. Pass them through unchanged,
+		// decoding (and discarding) a copy purely to validate the stream and
+		// find its end.
+		src = io.TeeReader(conn, w)
+		dst = io.Discard
 	}
-	_, err = io.Copy(w, rc)
+	gzr, err := gzip.NewReader(src)
+	if err != nil {
+		return err
+	}
+	defer gzr.Close()
+	gzr.Multistream(false)
+	_, err = io.Copy(dst, gzr)
 	return err
 }
 
